@@ -183,6 +183,23 @@ func TestC01Determinism(t *testing.T) {
 			}
 			sim.Logf("h=%d proposer=%x own=%v txs=%d ev=%d notes=%v", b.Height, b.Proposer.Address[:4], own, len(b.Txs), len(b.Misbehavior), bg.Notes)
 			fp = append(fp, b.Hash)
+			if own && propRep != nil && len(b.Txs) > 0 && rapid.IntRange(0, 2).Draw(t, "staleOwn") == 0 {
+				// a later round of the same height in which the proposer proposes AGAIN, something else of the same shape
+				// (same time, proposer, last commit, number of transactions), and then the FIRST proposal - re-proposed by a
+				// validator that saw a polka for it - is what gets processed and decided: the proposer's cached execution
+				// is that of the other proposal and must not be taken for the decided block's
+				var alt [][]byte
+				if len(b.Txs) >= 2 && !bytes.Equal(b.Txs[0], b.Txs[len(b.Txs)-1]) {
+					alt = append(append(alt, b.Txs[1:]...), b.Txs[0])
+				} else {
+					alt = append(append(alt, b.Txs[:len(b.Txs)-1]...), []byte{0xa0})
+				}
+				if n, err := sim.E.PrepareAlt(propRep, b, alt); err == nil && n == len(b.Full) {
+					rec.Label("own-proposal-replaced-by-another-of-the-same-shape")
+					sim.Logf("h=%d proposer prepared another proposal of the same shape afterwards", b.Height)
+					fp = append(fp, "stale-own")
+				}
+			}
 			// side traffic for the noisy replica
 			var sides []sideAction
 			ns := rapid.IntRange(0, 5).Draw(t, "nside")
